@@ -1,6 +1,6 @@
 \* transaction status (v10) as coded, every schedule (quick)
 CONSTANTS NSubs = 1 NConn = 1 InitLen = 1 MaxLen = 2 MaxTag = 2 MaxReverts = 1 MaxL1 = 1 MaxPc = 1 MaxTx = 1 MaxGw = 1 MaxRecv = 0 MaxTicks = 1 MaxBack = 3 MaxGot = 6
-  Ver = 10 Kinds <- KStatus StartAtL1 <- NoL1 NoLag = FALSE QuietSub = FALSE ReorgPrio = FALSE TeeStage = FALSE Window = FALSE FixL1None = FALSE BlockIds <- BidsLatest
+  Ver = 10 Kinds <- KStatus StartAtL1 <- NoL1 NoLag = FALSE QuietSub = FALSE ReorgPrio = FALSE TeeStage = FALSE Window = FALSE FixL1None = FALSE FixL1Order = FALSE BlockIds <- BidsLatest
 INIT Init
 NEXT Next
 VIEW view
